@@ -39,7 +39,8 @@ def main():
     res = {"repo_head": subprocess.check_output(["git", "-C", "/repo", "rev-parse", "--short", "HEAD"], text=True).strip()}
     try:
         shutil.copytree(seed, os.path.join(W, "SEED"))
-        demo = meta["demo_cmd"].replace("/tmp/seed2-%s" % pid, W).replace("/tmp/seed-%s" % pid, W)
+        import re
+        demo = re.sub(r"/tmp/seed\d*-%s" % pid, W, meta["demo_cmd"])
         rc, out = sh(demo, W)
         res["demo_without_patch"] = verdict(out)
         print("demo without patch:", res["demo_without_patch"])
